@@ -14,13 +14,14 @@ import Proofs.C06
     * `decode_panic_sound`                 conversely a panic out of decode() is a non-recoverable value
                                            raised by one of the group's DecodeFns (nothing else can panic)
     * `decode_shape`                       the (tree | partial tree | formats error) shape the harness observes
-    * `core_only_recoverable_partial`      the modelled primitives of pkg/decode that check their argument
-                                           raise only IOError/DecoderError for EVERY integer argument
-    * `core_only_recoverable_false` + four witnesses: the FULL core statement (every primitive, every
-      argument) is FALSE of the current tree — D.Bits/D.BytesLen/D.PeekBytes/D.BytesRange allocate from the
-      argument before checking it (negative or > 2^48 → runtime makeslice panic) and D.AlignBits(0) divides
-      by zero; these are known findings replayed through the harness-registered decoder `verif_c06`;
-      `core_unsafe_in_range` is what does hold for them.
+    * `core_only_recoverable`              FULL core statement: every modelled primitive of pkg/decode raises
+                                           only IOError/DecoderError for EVERY integer argument (true since
+                                           8465c2ad "fix: decode: don't allocate by unchecked lengths, AlignBits
+                                           with zero is an error")
+    * regression witnesses about the OLD core (`corePrimOld`): `bytesLen_negative_faults`, `bytesLen_huge_faults`,
+      `bits_huge_faults`, `bytesRange_huge_faults`, `alignBits_zero_faults`, `core_old_not_recoverable` — the five
+      calls that were runtime faults (makeslice / divide by zero) — and `core_fixed_witnesses`: they are IOErrors now;
+      `bytesRange_outside_buffer` for the old "zero bytes, no error" quirk (edf89c74).
 
   What is NOT proved (hypothesis `OnlyRecoverable f` for the 132 real DecodeFns — their own index
   arithmetic, map lookups, type assertions and allocations are ≈ 60 k lines of Go that are not modelled):
@@ -121,11 +122,12 @@ theorem decode_single_partial (f : Decoder) (x : Input) (v : PanicV) (hf : f x =
 
 /-! ### the decode core -/
 
-/-- the buffer is not absurdly long (a length that an allocation bounded by it cannot overflow): fq's
-    inputs are files or in-memory buffers -/
-def BufOK (s : St) : Prop := s.left ≤ 8 * maxAlloc
+/-- a sane decoder state: the position is not negative and the buffer is at most 2^48 bits (32 TiB) long,
+    so that an allocation bounded by the buffer cannot exceed runtime.maxAlloc: fq's inputs are files or
+    in-memory buffers -/
+def BufOK (s : St) : Prop := 0 ≤ s.pos ∧ s.len ≤ maxAlloc
 
-example : BufOK { len := 800, pos := 3, force := false } := by simp [BufOK, St.left, maxAlloc]
+example : BufOK { len := 800, pos := 3, force := false } := by simp [BufOK, maxAlloc]
 
 theorem onlyRec_ok {α : Type} (a : α) : OnlyRec (.ok a : Outcome α) := by intro v hv; simp at hv
 theorem onlyRec_io {α : Type} : OnlyRec (.panic .ioError : Outcome α) := by
@@ -133,16 +135,17 @@ theorem onlyRec_io {α : Type} : OnlyRec (.panic .ioError : Outcome α) := by
 theorem onlyRec_dec {α : Type} : OnlyRec (.panic .decoderError : Outcome α) := by
   intro v hv; simp at hv; subst hv; rfl
 
-/-- every modelled primitive that checks its argument raises only recoverable errors for EVERY integer
-    argument (negative, zero, beyond the buffer, near ±2^63), every position and both Force values.
-
-    FULL statement (`∀ p s a, OnlyRec (corePrim p s a)`) is false: `core_only_recoverable_false`. -/
-theorem core_only_recoverable_partial (p : Prim) (hp : p.unsafeArg = false) (s : St) (hs : BufOK s) (a : Int) :
+/-- FULL core statement (true of the tree since 8465c2ad): EVERY modelled primitive of pkg/decode raises only
+    recoverable errors (IOError / DecoderError) for EVERY integer argument — negative, zero, beyond the
+    buffer, near ±2^63 — every position and both Force values; never a Go runtime fault. -/
+theorem core_only_recoverable (p : Prim) (s : St) (hs : BufOK s) (a : Int) :
     OnlyRec (corePrim p s a) := by
-  cases p <;> simp [Prim.unsafeArg] at hp <;> simp only [corePrim]
+  obtain ⟨hp, hl⟩ := hs
+  cases p <;> simp only [corePrim]
   · exact onlyRec_ok _
-  · exact must_onlyRec _ (fun w => tryUintBits_nofault _ _ w)
-  · exact must_onlyRec _ (fun w => tryU_nofault _ _ w)
+  · exact must_onlyRec _ (fun w => tryBits_nofault _ _ w hp hl)
+  · exact must_onlyRec _ (fun w => tryUintBits_nofault _ _ w hp hl)
+  · exact must_onlyRec _ (fun w => tryU_nofault _ _ w hp hl)
   · exact must_onlyRec _ (fun w => tryBitBufLen_nofault _ _ w)
   · exact must_onlyRec _ (fun w => trySeekAbs_nofault _ _ w)
   · exact must_onlyRec _ (fun w => trySeekAbs_nofault _ _ w)
@@ -159,7 +162,16 @@ theorem core_only_recoverable_partial (p : Prim) (hp : p.unsafeArg = false) (s :
       · rename_i v h; intro v' hv'; simp at hv'; subst hv'; exact rangeFn_onlyRec _ _ _ _ h
       · exact must_onlyRec _ (fun w => trySeekAbs_nofault _ _ w)
   · exact rangeFn_onlyRec _ _ _
-  · exact must_onlyRec _ (fun w => tryText_nofault _ _ w hs)
+  · exact must_onlyRec _ (fun w => tryBytesLen_nofault _ _ w hp hl)
+  · exact must_onlyRec _ (fun w => tryBytesRange_nofault _ _ _ w hl)
+  · -- peekbytes
+    apply must_onlyRec
+    intro w
+    split
+    · simp
+    · simp
+    · rename_i w' h; exact absurd h (tryBytesLen_nofault _ _ _ hp hl)
+  · exact must_onlyRec _ (fun w => tryText_nofault _ _ w hp hl)
   · -- bitbufrange
     apply must_onlyRec
     intro w
@@ -167,6 +179,7 @@ theorem core_only_recoverable_partial (p : Prim) (hp : p.unsafeArg = false) (s :
     · simp
     · simp
     · rename_i w' h; exact absurd h (bitioxRange_nofault _ _ _ _)
+  · exact must_onlyRec _ (fun w => tryAlignBits_nofault _ _ w)
   · -- structn
     repeat' split
     · exact onlyRec_ok _
@@ -186,98 +199,57 @@ theorem core_only_recoverable_partial (p : Prim) (hp : p.unsafeArg = false) (s :
     · exact onlyRec_dec
     · exact onlyRec_ok _
 
-/-! ### the known findings of the core: the full statement is false of the current tree -/
+/-! ### regression witnesses: the core as it was before 8465c2ad (`corePrimOld`) did fault
+    (known findings verif_c06:decode.(*D).TryBytesLen / TryBytesRange / SharedReadBuf / TryAlignBits, fixed) -/
 
 def s4 : St := { len := 32, pos := 0, force := false }
 
-/-- D.BytesLen(-1): `make([]byte, nBytes)` before any check (decode.go:576) — runtime makeslice panic -/
-theorem bytesLen_negative_faults : corePrim .byteslen s4 (-1) = .panic (.runtime "makeslice-out-of-range") := by
+/-- old D.BytesLen(-1): `make([]byte, nBytes)` before any check — runtime makeslice panic -/
+theorem bytesLen_negative_faults : corePrimOld .byteslen s4 (-1) = .panic (.runtime "makeslice-out-of-range") := by
   decide
 
-/-- D.BytesLen(2^48+1), D.PeekBytes likewise: beyond runtime.maxAlloc — runtime makeslice panic
-    (and for 2^31 … 2^48 the allocation is attempted: memory exhaustion, counted as `resource`) -/
+/-- old D.BytesLen(2^48+1), D.PeekBytes likewise: beyond runtime.maxAlloc — runtime makeslice panic -/
 theorem bytesLen_huge_faults :
-    corePrim .byteslen s4 (maxAlloc + 1) = .panic (.runtime "makeslice-out-of-range") ∧
-    corePrim .peekbytes s4 (maxAlloc + 1) = .panic (.runtime "makeslice-out-of-range") := by
+    corePrimOld .byteslen s4 (maxAlloc + 1) = .panic (.runtime "makeslice-out-of-range") ∧
+    corePrimOld .peekbytes s4 (maxAlloc + 1) = .panic (.runtime "makeslice-out-of-range") := by
   decide
 
-/-- D.Bits(n) for n > 8·2^48: SharedReadBuf allocates the whole request first (decode.go:392) -/
-theorem bits_huge_faults : corePrim .bits s4 (1152921504606846976) = .panic (.runtime "makeslice-out-of-range") := by
+/-- old D.Bits(n) for n > 8·2^48: SharedReadBuf allocated the whole request first -/
+theorem bits_huge_faults : corePrimOld .bits s4 (1152921504606846976) = .panic (.runtime "makeslice-out-of-range") := by
   decide
 
-/-- D.BytesRange(pos, n) rejects n < 0 but allocates n > 2^48 (decode.go:559) -/
+/-- old D.BytesRange(pos, n) rejected n < 0 but allocated n > 2^48 -/
 theorem bytesRange_huge_faults :
-    corePrim .bytesrange s4 (maxAlloc + 1) = .panic (.runtime "makeslice-out-of-range") := by
+    corePrimOld .bytesrange s4 (maxAlloc + 1) = .panic (.runtime "makeslice-out-of-range") := by
   decide
 
-/-- D.AlignBits(0): `pos % int64(nBits)` (decode.go:695) — integer divide by zero -/
-theorem alignBits_zero_faults : corePrim .alignbits s4 0 = .panic (.runtime "integer-divide-by-zero") := by
+/-- old D.AlignBits(0): `pos % int64(nBits)` — integer divide by zero -/
+theorem alignBits_zero_faults : corePrimOld .alignbits s4 0 = .panic (.runtime "integer-divide-by-zero") := by
   decide
 
-/-- so the full core statement does not hold on the current tree -/
-theorem core_only_recoverable_false : ¬ (∀ (p : Prim) (s : St) (a : Int), BufOK s → OnlyRec (corePrim p s a)) := by
+/-- so the full core statement did NOT hold for the old core (why the fix was needed) … -/
+theorem core_old_not_recoverable : ¬ (∀ (p : Prim) (s : St) (a : Int), BufOK s → OnlyRec (corePrimOld p s a)) := by
   intro h
-  have := h .byteslen s4 (-1) (by simp [BufOK, St.left, maxAlloc, s4]) _ bytesLen_negative_faults
+  have := h .byteslen s4 (-1) (by simp [BufOK, maxAlloc, s4]) _ bytesLen_negative_faults
   simp [PanicV.recoverable] at this
 
-/-- what does hold for the allocating primitives: arguments in the range a decoder can justify
-    (non-negative and at most 2^48 bytes; a non-zero alignment) raise only recoverable errors -/
-theorem core_unsafe_in_range (p : Prim) (s : St) (a : Int) (h0 : 0 ≤ a) (h1 : a ≤ maxAlloc) (hz : a ≠ 0) :
-    OnlyRec (corePrim p s a) ∨ p.unsafeArg = false := by
-  cases p
-  all_goals (first | (right; rfl) | left)
-  all_goals
-    simp only [corePrim]
-    apply must_onlyRec
-    intro w
-  · -- bits
-    unfold tryBits
-    have : bitsByteCount a ≤ maxAlloc := by
-      unfold bitsByteCount; split <;> simp [maxAlloc] at h1 ⊢ <;> omega
-    have hb0 := bitsByteCount_nonneg a h0
-    have hm : makesliceFault (bitsByteCount a) = false := by
-      simp [makesliceFault]; omega
-    repeat' split
-    all_goals simp_all
-  · -- byteslen
-    exact tryBytesLen_nofault _ _ _ (by simp [makesliceFault]; omega)
-  · -- bytesrange
-    exact tryBytesRange_nofault _ _ _ _ (by simp [makesliceFault]; omega)
-  · -- peekbytes
-    have := tryBytesLen_nofault s a
-    split
-    · simp
-    · simp
-    · rename_i w' h; exact absurd h (this w' (by simp [makesliceFault]; omega))
-  · -- alignbits
-    unfold tryAlignBits; simp [hz]
+/-- … and the same five calls are plain IOErrors now -/
+theorem core_fixed_witnesses :
+    corePrim .byteslen s4 (-1) = .panic .ioError ∧ corePrim .byteslen s4 (maxAlloc + 1) = .panic .ioError ∧
+    corePrim .peekbytes s4 (maxAlloc + 1) = .panic .ioError ∧ corePrim .bits s4 1152921504606846976 = .panic .ioError ∧
+    corePrim .bytesrange s4 (maxAlloc + 1) = .panic .ioError ∧ corePrim .alignbits s4 0 = .panic .ioError := by
+  decide
 
-example : OnlyRec (corePrim .byteslen s4 5) := by
-  have := core_unsafe_in_range .byteslen s4 5 (by decide) (by decide) (by decide)
-  simpa [Prim.unsafeArg] using this
+/-- old D.BytesRange outside the buffer "succeeded" with zero bytes (known finding
+    bytesrange-outside-buffer-no-error, fixed by edf89c74); now an IOError -/
+theorem bytesRange_outside_buffer :
+    corePrimOld .bytesrange { len := 32, pos := 32, force := false } 4 = .ok { len := 32, pos := 32, force := false } ∧
+    corePrim .bytesrange { len := 32, pos := 32, force := false } 4 = .panic .ioError := by
+  decide
 
-/-- the FULL core statement holds for the repaired core (the specification of the proposed patch) -/
-theorem core_repaired_only_recoverable (p : Prim) (s : St) (a : Int) : OnlyRec (corePrimRepaired p s a) := by
-  intro v hv
-  unfold corePrimRepaired at hv
-  split at hv
-  · split at hv
-    · simp at hv; subst hv; rfl
-    · simp at hv
-  · split at hv
-    · simp at hv; subst hv; rfl
-    · split at hv
-      · simp at hv; subst hv; rfl
-      · rename_i o hne
-        cases v with
-        | runtime w => exact absurd hv (hne w)
-        | _ => rfl
-  · split at hv
-    · simp at hv; subst hv; rfl
-    · rename_i o hne
-      cases v with
-      | runtime w => exact absurd hv (hne w)
-      | _ => rfl
+/-- the primitives that were not touched by the fix are the same in both versions -/
+theorem core_old_eq (p : Prim) (hp : p.wasUnsafe = false) (s : St) (a : Int) : corePrimOld p s a = corePrim p s a := by
+  cases p <;> simp [Prim.wasUnsafe] at hp <;> rfl
 
 /-- Errorf is a no-op exactly under Options.Force (decode.go:372-376); Fatalf and IOPanic are not -/
 theorem errorf_force (s : St) (a : Int) :
